@@ -6,6 +6,7 @@ package harness
 import (
 	"context"
 	"fmt"
+	"sort"
 	"strings"
 	"sync"
 	"testing"
@@ -333,17 +334,37 @@ func propC05(c c05Case) *Outcome {
 	// result classes (only while nobody cancelled)
 	var recvd []int32
 	finalSeen := ""
-	for _, e := range res.Events {
+	cardinalityEnd := false
+	byDone := append([]*Event{}, res.Events...)
+	sort.SliceStable(byDone, func(i, j int) bool { return byDone[i].DoneSeq < byDone[j].DoneSeq })
+	cardAny := false
+	for _, e := range byDone {
+		if !serverStreaming(c.Kind) && e.Step.Actor == "cr" && e.Step.Op == "recv" && e.ErrKind == "status:13" {
+			cardAny = true
+		}
+	}
+	for _, e := range byDone {
 		if !e.Done {
 			return o.failf("%s/%s: step %d (%s %s) never completed", c.Carrier, c.Kind, e.Seq, e.Step.Actor, e.Step.Op)
 		}
 		if e.Cancelled {
 			continue
 		}
+		if !serverStreaming(c.Kind) && e.Step.Actor == "cr" && e.Step.Op == "recv" && e.ErrKind == "status:13" {
+			// the client transport itself ended the call (more than one response to a single-response
+			// method): from here on the call is over, as if cancelled
+			cardinalityEnd = true
+		}
+		if cardinalityEnd {
+			continue
+		}
 		switch e.Step.Actor + "/" + e.Step.Op {
 		case "cs/send":
-			if e.ClientClosed {
-				break // send after our own CloseSend: any error
+			if e.ClientClosed || cardAny {
+				// send after our own CloseSend: any error. cardAny: the client transport ends the
+				// call by itself at some point of this run (surplus response); a send racing
+				// with that may see the cancellation before the receive that caused it returns
+				break
 			}
 			switch e.ErrKind {
 			case "nil":
@@ -429,7 +450,15 @@ func propC05(c c05Case) *Outcome {
 // OK), or a single-request method that did not get exactly one request: the final status is then
 // the transport's own and not compared.
 func c05Cardinality(kind string, res *schedResult) bool {
-	if !serverStreaming(kind) && !(len(res.SentByHandler) == 1 || (len(res.SentByHandler) == 0 && res.HandlerStatus != 0)) {
+	// count attempted sends: a send that was cut short by the end of the call may or may not
+	// have put its message on the wire
+	attempts := 0
+	for _, e := range res.Events {
+		if (e.Step.Actor == "h" || e.Step.Actor == "h2") && e.Step.Op == "send" {
+			attempts++
+		}
+	}
+	if !serverStreaming(kind) && !(attempts == 1 && len(res.SentByHandler) == 1 || (attempts == 0 && res.HandlerStatus != 0)) {
 		return true
 	}
 	if !clientStreaming(kind) && len(res.SentByClient) != 1 {
